@@ -22,16 +22,17 @@ COMPONENTS = {
     'real': ['numqi.sim.state.measure_quantum_vector and _measure_quantum_vector_hf0 (lru_cache, wiped / re-sized by the simulator)',
              'numqi.sim.circuit.MeasureGate, Circuit.measure/apply_state/shift_qubit_index_/register_custom_gate, builder methods',
              'numqi.sim.state.apply_gate / apply_control_n_gate (as workload inside circuits)', 'CircuitTorchWrapper.forward', 'numpy Generator.choice validation of p'],
-    'stubbed': ['the outcome chooser (ScriptedGenerator returns the scheduler-picked element of the support {p>1e-6})', 'OS entropy'],
+    'stubbed': ['the outcome chooser (ScriptedGenerator returns the scheduler-picked element of the support {p>1e-11})', 'OS entropy'],
 }
 ASSUMPTIONS = [
     'bit-mask Born model (models/born.py) is correct; qubit 0 is the most significant bit',
-    'outcomes with probability <= 1e-6 are treated as unreachable by the scheduler (numpy would essentially never pick them)',
+    'outcomes with probability <= 1e-11 are treated as unreachable by the scheduler (rounding-noise outcomes are ~1e-32; states with probabilities 1e-8..1e-10 are generated on purpose)',
     'a MeasureGate is never shared between two circuits; classical-control gates are user code (harness-owned) and are shifted by the harness',
     'complex128 / float64 states, n<=6 qubits; tolerances 1e-9',
 ]
 
 TOL = 1e-9
+FLOOR = 1e-11  # outcomes with probability below this are unreachable for the scheduler (rounding-noise outcomes are ~1e-32)
 
 
 def budget(tier):
@@ -347,10 +348,10 @@ class Sim:
         a = 0
         for b in bs:
             a = (a << 1) | b
-        if p[a] <= 1e-9:
+        if p[a] <= FLOOR / 10:
             raise Violation('support', api, f'outcome {bs} on S={S} has model probability {p[a]:.3g}')
         if scripted_pick is not None:
-            supp = np.nonzero(np.asarray(sut_prob_for_pick) > 1e-6)[0]
+            supp = np.nonzero(np.asarray(sut_prob_for_pick) > FLOOR)[0]
             exp = int(supp[scripted_pick % len(supp)])
             if a != exp:
                 raise Violation('support', api, f'scheduler chose outcome index {exp} of S={S} but the bit string {bs} encodes {a}')
@@ -376,9 +377,18 @@ class Sim:
         mq = self.nq.sim.state.measure_quantum_vector
 
         def mk_seed():
-            return seams.ScriptedGenerator(seed=7, script=[pick]) if pick is not None else int(seed)
+            return seams.ScriptedGenerator(seed=7, script=[pick], floor=FLOOR) if pick is not None else int(seed)
 
-        idx = tuple(S) if (len(S) > 1 or (pick is not None and pick % 2)) else int(S[0])
+        form = (pick if pick is not None else int(seed)) % 4
+        if len(S) == 1 and form == 0:
+            idx = int(S[0])
+        elif form == 1:
+            idx = tuple(np.int64(q) for q in S)
+        else:  # (an ndarray index is not in the documented signature int|tuple[int]: numqi's hf_tuple_of_int turns it into a list; not claimed)
+            idx = tuple(S)
+        if (pick if pick is not None else int(seed)) % 3 == 0:
+            psi = psi.copy()
+            psi.setflags(write=False)  # a caller may hand in a read-only array; measurement must not need to write into it
         flt = op.get('fault')
         if flt:
             kind = flt['kind']
@@ -530,7 +540,7 @@ class Sim:
             S = sorted({q for q in op['S'] if q < self.n})
             if not S:
                 return
-            seed = int(op['seed']) if 'seed' in op else seams.ScriptedGenerator(seed=len(self.mgates))
+            seed = int(op['seed']) if 'seed' in op else seams.ScriptedGenerator(seed=len(self.mgates), floor=FLOOR)
             try:
                 g = c.measure(tuple(S) if len(S) > 1 or len(self.mgates) % 2 else S[0], seed=seed)
             except Exception as e:
@@ -697,10 +707,10 @@ class Sim:
                 if is_scripted:
                     pick = picks[j % len(picks)]
                     j += 1
-                    if np.any(np.abs(p - 1e-6) < 1e-9):
+                    if np.any(np.abs(p - FLOOR) < 1e-3 * FLOOR):
                         self.bump('probe.floor_boundary_skip')
                         return
-                    supp = np.nonzero(p > 1e-6)[0]
+                    supp = np.nonzero(p > FLOOR)[0]
                     a = int(supp[pick % len(supp)])
                 else:
                     if occ[id(g)] != 1:
@@ -711,7 +721,7 @@ class Sim:
                     a = 0
                     for bb in g.bitstr:
                         a = (a << 1) | int(bb)
-                    if len(g.bitstr) != len(S) or a >= len(p) or p[a] <= 1e-9:
+                    if len(g.bitstr) != len(S) or a >= len(p) or p[a] <= FLOOR / 10:
                         raise Violation('bookkeeping', 'MeasureGate', f'recorded outcome {g.bitstr} on S={S} has probability {p[a] if a < len(p) else None} at that point of the circuit')
                 bs = [(a >> (len(S) - 1 - t)) & 1 for t in range(len(S))]
                 outcomes[id(g)] = bs
